@@ -261,14 +261,21 @@ func genA(t *rapid.T) CaseA {
 	}
 	c.B = -1
 	if rapid.IntRange(0, 9).Draw(t, "withB") < 7 {
-		// B must be another operator than the one A names (one session per operator)
+		// B is an operator who is online and authenticated while A tries: often the very
+		// operator A's message names (an attempt on a logged-in account must not touch the
+		// session that is logged in), otherwise another one
 		var idx []int
+		self := -1
 		for i, x := range c.Users {
 			if x.Name != u.Name {
 				idx = append(idx, i)
+			} else {
+				self = i
 			}
 		}
-		if len(idx) > 0 {
+		if len(idx) == 0 || rapid.IntRange(0, 9).Draw(t, "B-is-named") < 5 {
+			c.B = self
+		} else {
 			c.B = rapid.SampledFrom(idx).Draw(t, "B")
 		}
 	}
@@ -670,6 +677,20 @@ func runA(raw json.RawMessage) *core.Violation {
 		}
 	}
 
+	// ---- probe: after a refused attempt every operator who was online is still served
+	if !accepted && len(fx.LeakedMutexes(2*time.Millisecond)) == 0 {
+		if v := w.do(Bcast{K: "console"}); v != nil {
+			return v
+		}
+		if w.b != nil {
+			if v := w.flushB(); v != nil {
+				v.Sig = "bystander|" + v.Sig
+				v.Msg = fmt.Sprintf("after socket A's refused first message (%s) the authenticated operator %s: %s", c.Cls, w.bUser, v.Msg)
+				return v
+			}
+		}
+	}
+
 	// ---- let whatever handles A's socket finish, then account for every frame A got
 	if accepted {
 		// A is an operator now: it leaves like one
@@ -678,7 +699,7 @@ func runA(raw json.RawMessage) *core.Violation {
 	} else {
 		a.HalfClose()
 	}
-	if !fx.QuiesceTo(handlersAlive+readers, wsx.Watchdog) {
+	if !fx.WaitHandlers(handlersAlive, wsx.Watchdog) {
 		dirty = true
 		wsx.Obs("not-quiescent-after-A")
 	}
